@@ -138,4 +138,11 @@ PROPS = {
         trusted_base=COMMON_TB + ["Cli.v (options_of_args, dest_path, cli_generate) is a hand model of graphql_client_cli/src/generate.rs; tied by RunC19.corr: for the flags of each invocation the model's options fed to the model of the generator must reproduce the written file, and the model's destination must be the file that changed", "clap's parsing of the command line; rustfmt (the formatted file is re-parsed with syn, so only its token content is compared); std::path file_name / with_extension / join (modelled on component lists); the file system", 'the warning-suppression header is translated from generate.rs on every run'],
         assumptions=["paths are relative, '/'-separated, with a non-empty last component"],
     ),
+    "C20": dict(
+        coq_props=['Properties/C20.v'],
+        run_modules=['RunC20.v'],
+        harness_cmd='c20',
+        trusted_base=COMMON_TB + ["Cli.parse_header / chosen_document / cli_introspect are hand models of introspection_schema.rs (Header::from_str over code points with the 25 White_Space code points of str::trim / split_whitespace; the flag cascade; status handling with the output file created after the reply is parsed); tied by RunC20.corr to the built binary (header acceptance observed through clap's exit status and the header the mock server receives; operationName per flag combination; exit status per server behaviour)", "the four introspection documents' operation names are translated from the .graphql files and the derive declarations on every run; that the generated QUERY constants are those files is C05", 'reqwest (HTTP, header transmission, bearer_auth), clap, serde_json pretty printing (compared as JSON values), the OS and the python3 mock server'],
+        assumptions=['header names are transmitted case-insensitively by HTTP; an empty header value may be dropped by the transport'],
+    ),
 }
